@@ -13,6 +13,7 @@ import (
 	"verif/core"
 	"verif/instr"
 	"verif/sched"
+	"verif/sched/vrt"
 )
 
 // Packages are the goa runtime packages instrumented for C20.
@@ -44,6 +45,11 @@ func Job(extra ...instr.Target) sched.Job {
 // auxKeep selects the scenarios of the auxiliary free-running -race pass: everything outside the
 // request matrix, and of the matrix the 3-thread scenarios and every kind against itself.
 func auxKeep(scenario string) bool {
+	if strings.HasPrefix(scenario, "c20G/") {
+		// a free-running stream that registers with the canceler after its sweep is never
+		// cancelled (see the StreamCanceler note in the evidence): the pass would hang
+		return !strings.Contains(scenario, "SHUTDOWN")
+	}
 	if !strings.HasPrefix(scenario, "c20A/matrix/") {
 		return true
 	}
@@ -88,6 +94,19 @@ var MatrixMenus = map[string]string{
 	"oracle":               "each request's (status, headers, body modulo error id, error-handler calls, value decoded by the client) equals the same request alone on a FRESH server without prefix and without peers; happens-before races; deadlock; panic",
 }
 
+// GRPCMenus states family G (checks/c20/scen/grpcmw.go) for the evidence.
+var GRPCMenus = map[string]string{
+	"driven":   "no network: the interceptor functions of goa.design/goa/v3/grpc/middleware are called directly, nested as grpc.ChainStreamInterceptor / ChainUnaryInterceptor nest them, with a fake grpc.ServerStream; handlers return at once or serve until their context is cancelled",
+	"calls":    "stream call = method {/svc/Watch, /svc/Tail} x handler {block, return}; unary call = method x incoming x-request-id {present, over the limit, absent}",
+	"chains":   "canceler = StreamCanceler; full = StreamRequestID -> StreamServerTrace -> StreamServerLog -> StreamCanceler; nocancel = the same without StreamCanceler; unary = UnaryRequestID -> UnaryServerTrace -> UnaryServerLog, handler calls out through UnaryClientTrace",
+	"shutdown": "one more thread cancels the context StreamCanceler was built with; the canceler's own goroutine is a daemon thread",
+	"prefix":   "none | a stream of the same method that completed before | a completed stream of the other method",
+	"streams2": "{canceler, full} x 3 prefixes x {same method, different methods} x {block||block, block||return, return||return} + shutdown + canceler goroutine: 36 scenarios of 4 threads (quick 30); canceler <= 2 preemptions (thorough <= 3, and all interleavings without prefix), full <= 1 (thorough <= 2)",
+	"streams3": "3 calls + shutdown + canceler goroutine (5 threads), chain canceler: 3 scenarios, <= 1 preemption (thorough <= 2)",
+	"others":   "nocancel: 2 scenarios (2-3 streams), unary: 4 scenarios (2-3 calls), <= 2 preemptions (thorough <= 3, two threads also all interleavings)",
+	"oracle":   "scenarios with a shutdown thread: PROJECTION differential -- each call's (status, what its handler saw in its context incl. whether the shutdown had been requested when it was cancelled, its own log lines, or BLOCKED) equals the same call alone with the shutdown thread and the canceler goroutine in the same relative order; others: each call alone on a fresh chain; happens-before races; panics; step horizon",
+}
+
 // rowGroup aggregates the rows of the request matrix in the evidence (one row per menu slice
 // instead of one per scenario).
 func rowGroup(scenario string) string {
@@ -115,11 +134,23 @@ func Run(c *core.Ctx) {
 	c.Assume("chi, net/http, httptest, encoding/*, regexp, context run as opaque steps under the scheduler and are trusted as documented thread-safe")
 	c.Assume("weaker-than-sequential-consistency effects are subsumed by the happens-before oracle: any conflicting pair not ordered by happens-before is reported whatever values were observed")
 	c.Assume("error IDs (random per occurrence) are masked in the observables; time.Now/Since inside instrumented files read a virtual clock; the samplers' random source is a harness-owned seam")
-	c.Assume("not covered by the scheduler (blocking inside uninstrumented primitives): SkipResponseWriter's io.Pipe, StreamCanceler's channel receive, WebSocket I/O; " +
+	c.Assume("not covered by the scheduler (blocking inside uninstrumented primitives): SkipResponseWriter's io.Pipe, WebSocket I/O, select statements (StreamCanceler's <-ctx.Done() is modelled: family G); " +
 		"FAMILY B (generated servers/clients) is added by the generation pipeline through sched.Job.Extra")
 	c.Note("bounds", "family A: 2-3 threads x 1-2 operations, preemption bound 2 (quick) / 3 for two threads (thorough); C17 cache scenarios: all interleavings for two threads; "+
 		"request matrix: see request_matrix_family_a")
 	c.Note("request_matrix_family_a", MatrixMenus)
+	c.Note("grpc_middleware_family_g", GRPCMenus)
+	c.Note("opaque_objects", map[string]any{
+		"rule": "a use (method call, field access through it, passing it to a call, also as &x) of a package-level variable -- of goa or of any imported package -- or of a value reached only through one, whose type is declared outside the instrumented packages, " +
+			"is an access to the OBJECT: none for the allow-listed types below, a WRITE for every other type (decided on the dynamic type when the static type is an interface); " +
+			"two unordered uses from different threads are a race whose signature names the variable and the dynamic type",
+		"allow_list_with_reasons": vrt.ConcurrencySafe,
+		"limit":                   "package-level slices and maps of unnamed type handed to uninstrumented functions are not recorded (element accesses made by goa's own code are hooked); func-typed variables are values",
+	})
+	c.Assume("context cancellation: the statement `<-ctx.Done()` in instrumented code and the handlers of the gRPC scenarios wait through vrt.AwaitDone (a blocking scheduler operation enabled once ctx.Err() != nil), " +
+		"calls of context.CancelFunc values go through vrt.Cancel; every cancellation releases into ONE global clock that every completed wait acquires (over-approximation of the real edge: can hide, never invent a race); " +
+		"`go func(){...}()` executed while the instance is built becomes a daemon thread; an execution whose scenario threads have finished ends when only blocked daemons are left; " +
+		"sync.Map.Range visits a snapshot of the keys in first-store order")
 	c.Assume("sync.Pool (shim): a Get returns ANY value Put before by any thread, or a fresh one -- every alternative is explored as a data choice of the caller (at most 7 pooled values + fresh per Get); " +
 		"pool misuse (double Put, use after Put) is never reported by itself, only through the differential or the race oracle; pools inside uninstrumented packages (encoding/json, fmt) are the real sync.Pool on one P")
 	c.Assume("sequential prefix: the prefix request runs single-threaded on the mounted server before the threads start; the sequential references are computed WITHOUT it (fresh server), " +
